@@ -7,9 +7,11 @@ Cases == JsonDeserialize(IOEnv.OBS_FILE)
 OInit == i \in 1..Len(Cases)
 ONext == UNCHANGED i
 C == Cases[i]
-Rej == C.cfg.err # "none"
+Rej == C.cfg.err \notin {"none", "none_pre_pq"}
 C24_SameRows == (~C.single.rejected /\ ~C.batch.rejected) => C.single.rows = C.batch.rows
 C24_BatchRejectsIffSingleRejects == C.batch.rejected = C.single.rejected
-C24_RejectsAsRequired == C.single.rejected = Rej
+\* with a partially specified parameter group (part # 0) the library may reject the arguments as inconsistent; what is
+\* required then is only that both routes agree
+C24_RejectsAsRequired == C.cfg.part = 0 => C.single.rejected = Rej
 C24_NoPartialCreation == C.batch.rejected => C.batch.added = 0
 =============================================================================
